@@ -199,6 +199,8 @@ def check(ctx):
     for r in returns_of(an, sv):
         if isinstance(r.ast.value, ast.Name):
             ret_names.add(r.ast.value.id)
+    from engine.specialize import Spec
+    raising_mode = Spec(an, sv, lambda e, node: False if isinstance(e, ast.Name) and e.id == "collect_errors" else None)
     for h in handlers:
         hbody = set()
         for st in h.ast.body:
@@ -220,12 +222,33 @@ def check(ctx):
                "the handler either raises or appends the error to the returned list" if p is None else
                "the handler can swallow the error: %s" % pth(p), node=h)
         # (ii) in raising mode it raises: continuing requires collect_errors to be true
-        def cut_collect(a, bb, lbl):
-            return not (a.kind == "test" and isinstance(a.ast, ast.Name) and a.ast.id == "collect_errors" and lbl is True)
-        p = g.path(h, leaves, may_raise=lambda n: an.node_may_raise(sv, n), from_successors=True, edge_filter=cut_collect)
+        # (the function specialised for collect_errors false: flags computed from it, `fail_fast = not collect_errors`, follow)
+        p = g.path(h, leaves, may_raise=lambda n: an.node_may_raise(sv, n), from_successors=True, edge_filter=raising_mode.edge_ok)
         ctx.ob("handler.raises-unless-collecting", sv, h.ast.type if h.ast.type is not None else "except:", p is None,
                "without collect_errors the handler always raises" if p is None else
                "in raising mode the handler continues without raising (load_tree ignores the returned list)", node=h)
+        # (ii') what it raises is a validation error: the caught ValidationError itself, or one built from the caught exception
+        catches_ve = h.ast.type is not None and "ValidationError" in (an.ft(sv).class_spec(h.ast.type, {}) or []) and \
+            (an.ft(sv).class_spec(h.ast.type, {}) or []) == ["ValidationError"]
+        for rn in [n for n in g.nodes if n.kind == "raise" and n.stmt is not None and id(n.stmt) in hbody]:
+            exc = n_exc = rn.stmt.exc
+            good = True
+            if exc is None:
+                good = catches_ve
+            else:
+                for k, pl in value_sources(sv, exc, rn):
+                    if k == "except":
+                        good = good and catches_ve
+                    elif k == "expr" and isinstance(pl, ast.Call):
+                        nn = g.nodes_for(pl)
+                        tg = an.targets(sv, nn[0]) if nn else []
+                        good = good and bool(tg) and all(t.kind == "ctor" and t.cls is not None and t.cls.name == "ValidationError" for t in tg)
+                    else:
+                        good = False
+            ctx.ob("handler.raises-validation-error", sv, rn.stmt, good,
+                   "what leaves the handler is a validation error" if good else
+                   "the handler for %s re-raises the caught exception as it is: a failing validator surfaces as a foreign exception type, not as a "
+                   "validation error" % (ast.unparse(h.ast.type) if h.ast.type is not None else "everything"), node=rn)
         # (iii) what is appended is the caught error or a ValidationError built from it
         for a in appends:
             arg = a.ast.args[0] if a.ast.args else None
@@ -374,7 +397,7 @@ def check(ctx):
     ctx.ob("register.schema", inn, "schema._validators.append(func)", stores_schema, "schema validators are registered" if stores_schema else
            "validator() no longer registers schema validators")
     fv_use = model.method("Field", "validate")
-    uses = any(isinstance(x, ast.Attribute) and x.attr == "validator" and isinstance(getattr(x, "_parent", None), ast.Call)
-               and x._parent.func is x for x in ast.walk(fv_use.node))
+    from .common import called_attr
+    uses = any(isinstance(x, ast.Call) and called_attr(fv_use, x) == "validator" for x in ast.walk(fv_use.node))
     ctx.ob("register.field-validator-called", fv_use, "self.validator(cfg, value)", uses,
            "the custom validator is part of the validation chain" if uses else "Field.validate never calls the custom validator")
